@@ -2,7 +2,7 @@
 GENERATED import list — regenerate with `python3 tools/gen_all_imports.py` (from /verif); do not edit the
 imports by hand. `python3 tools/gen_all_imports.py --check` fails if a module on disk is not imported here.
 
-Imports every module of the libraries QmcModel, QmcProofs, QmcProps (168 modules), so that
+Imports every module of the libraries QmcModel, QmcProofs, QmcProps (169 modules), so that
 `lake build QmcAll` certifies that the whole development type-checks in ONE environment: no two modules
 declare the same name (Lean: "environment already contains …"). See design_notes/Cleanup.md.
 
@@ -109,6 +109,7 @@ import QmcProofs.LawSlot
 import QmcProofs.LawSweep
 import QmcProofs.LawTimestep
 import QmcProofs.LawTravOK
+import QmcProofs.LawTravPerm
 import QmcProofs.LawTree
 import QmcProofs.Loop
 import QmcProofs.LoopConsistent
